@@ -146,25 +146,59 @@ def runIterScript (isMut : Bool) : List Char → Iter → List String → M (Lis
       runIterScript isMut cs it (("D" ++ fmtString xs) :: acc)
     | _ => runIterScript isMut cs it ("?" :: acc)
 
-def runDrainScript : List Char → Drain → List String → M (Drain × List String)
+/-- the element-level core of the crate, as the driver calls it: either the hand-written model
+(`modelOps`, the definitions the theorems of `Props/` are about) or the definitions translated from
+the Rust source on this run (`srcOps` in `DriverSrc.lean`, from `Generated/Core.lean`) -/
+structure CoreOps where
+  pushBack : Elem → M (Option Elem) := CircBuf.pushBack
+  pushFront : Elem → M (Option Elem) := CircBuf.pushFront
+  tryPushBack : Elem → M (Except Elem Unit) := CircBuf.tryPushBack
+  tryPushFront : Elem → M (Except Elem Unit) := CircBuf.tryPushFront
+  popBack : M (Option Elem) := CircBuf.popBack
+  popFront : M (Option Elem) := CircBuf.popFront
+  swap : Nat → Nat → M Unit := CircBuf.swap
+  swapRemoveBack : Nat → M (Option Elem) := CircBuf.swapRemoveBack
+  swapRemoveFront : Nat → M (Option Elem) := CircBuf.swapRemoveFront
+  truncateBack : Nat → M Unit := CircBuf.truncateBack
+  truncateFront : Nat → M Unit := CircBuf.truncateFront
+  clear : M Unit := CircBuf.clear
+  get : Nat → M (Option Nat) := CircBuf.get?
+  nthBack : Nat → M (Option Nat) := CircBuf.nthBack?
+  front : M (Option Nat) := CircBuf.front?
+  back : M (Option Nat) := CircBuf.back?
+  asSlices : M (View × View) := CircBuf.asSlices
+  remove : Nat → M (Option Elem) := CircBuf.remove
+  makeContiguous : M View := CircBuf.makeContiguous
+  iterNew : M Iter := CircBuf.Iter.new
+  iterOverRange : Bound → Bound → M Iter := CircBuf.Iter.overRange
+  drainNew : Bound → Bound → M Drain := CircBuf.Drain.new
+  drainNext : Drain → M (Option Elem × Drain) := CircBuf.Drain.next
+  drainNextBack : Drain → M (Option Elem × Drain) := CircBuf.Drain.nextBack
+  drainLen : Drain → M Nat := fun d => pure d.len
+
+def modelOps : CoreOps := {}
+
+def runDrainScript (o : CoreOps) : List Char → Drain → List String → M (Drain × List String)
   | [], d, acc => pure (d, acc.reverse)
   | c :: cs, d, acc => do
     match c with
     | 'F' =>
-      let (r, d') ← d.next
+      let (r, d') ← o.drainNext d
       let tok := match r with | none => "F-" | some e => s!"F({showElem e})"
-      runDrainScript cs d' (tok :: acc)
+      runDrainScript o cs d' (tok :: acc)
     | 'B' =>
-      let (r, d') ← d.nextBack
+      let (r, d') ← o.drainNextBack d
       let tok := match r with | none => "B-" | some e => s!"B({showElem e})"
-      runDrainScript cs d' (tok :: acc)
-    | 'L' => runDrainScript cs d (s!"L{d.len}" :: acc)
+      runDrainScript o cs d' (tok :: acc)
+    | 'L' => do
+      let n ← o.drainLen d
+      runDrainScript o cs d (s!"L{n}" :: acc)
     | 'D' => do
       let (r, l) ← d.asSlices
       let xs ← readAll (r.slots ++ l.slots)
       xs.forM (fun e => emit (.fmt e.id))
-      runDrainScript cs d (("D" ++ fmtString xs) :: acc)
-    | _ => runDrainScript cs d ("?" :: acc)
+      runDrainScript o cs d (("D" ++ fmtString xs) :: acc)
+    | _ => runDrainScript o cs d ("?" :: acc)
 
 def runIntoIterScript : List Char → List String → M (List String)
   | [], acc => pure acc.reverse
@@ -201,33 +235,6 @@ def showBool (b : Bool) : String := if b then "true" else "false"
 
 def bad : M String := pure "bad-op"
 
-/-- the element-level core of the crate, as the driver calls it: either the hand-written model
-(`modelOps`, the definitions the theorems of `Props/` are about) or the definitions translated from
-the Rust source on this run (`srcOps` in `DriverSrc.lean`, from `Generated/Core.lean`) -/
-structure CoreOps where
-  pushBack : Elem → M (Option Elem) := CircBuf.pushBack
-  pushFront : Elem → M (Option Elem) := CircBuf.pushFront
-  tryPushBack : Elem → M (Except Elem Unit) := CircBuf.tryPushBack
-  tryPushFront : Elem → M (Except Elem Unit) := CircBuf.tryPushFront
-  popBack : M (Option Elem) := CircBuf.popBack
-  popFront : M (Option Elem) := CircBuf.popFront
-  swap : Nat → Nat → M Unit := CircBuf.swap
-  swapRemoveBack : Nat → M (Option Elem) := CircBuf.swapRemoveBack
-  swapRemoveFront : Nat → M (Option Elem) := CircBuf.swapRemoveFront
-  truncateBack : Nat → M Unit := CircBuf.truncateBack
-  truncateFront : Nat → M Unit := CircBuf.truncateFront
-  clear : M Unit := CircBuf.clear
-  get : Nat → M (Option Nat) := CircBuf.get?
-  nthBack : Nat → M (Option Nat) := CircBuf.nthBack?
-  front : M (Option Nat) := CircBuf.front?
-  back : M (Option Nat) := CircBuf.back?
-  asSlices : M (View × View) := CircBuf.asSlices
-  remove : Nat → M (Option Elem) := CircBuf.remove
-  makeContiguous : M View := CircBuf.makeContiguous
-  iterNew : M Iter := CircBuf.Iter.new
-  iterOverRange : Bound → Bound → M Iter := CircBuf.Iter.overRange
-
-def modelOps : CoreOps := {}
 
 /-- execute one operation (tokens without fault suffixes); returns the `ret` field -/
 def runOp (o : CoreOps) (toks : List String) : M String := do
@@ -368,8 +375,8 @@ def runOp (o : CoreOps) (toks : List String) : M String := do
     pure (";".intercalate r)
   | ["drain", sb, eb, sc, fin] => match parseBound sb, parseBound eb with
     | some sb, some eb => do
-      let d ← Drain.new sb eb
-      let (d, r) ← runDrainScript (scriptOf sc) d []
+      let d ← o.drainNew sb eb
+      let (d, r) ← runDrainScript o (scriptOf sc) d []
       if fin = "drop" then d.drop else pure ()
       pure (";".intercalate r)
     | _, _ => bad
